@@ -359,7 +359,7 @@ func compileAssignStmt(ctx *blockCtx, expr *ast.AssignStmt) {
 		compileExprLHS(ctx, lhs)
 	}
 	base := ctx.cb.InternalStack().Len()
-	for i, rhs := range expr.Rhs {
+	for _, rhs := range expr.Rhs {
 		switch e := unparen(rhs).(type) {
 		case *ast.LambdaExpr, *ast.LambdaExpr2:
 			if len(expr.Lhs) == 1 && len(expr.Rhs) == 1 {
@@ -375,13 +375,13 @@ func compileAssignStmt(ctx *blockCtx, expr *ast.AssignStmt) {
 		case *ast.SliceLit:
 			var typ types.Type
 			if len(expr.Lhs) == len(expr.Rhs) {
-				typ, _ = gogen.DerefType(ctx.cb.Get(-1 - i).Type)
+				typ, _ = gogen.DerefType(ctx.cb.Get(-len(expr.Lhs)).Type)
 			}
 			compileSliceLit(ctx, e, typ)
 		case *ast.CompositeLit:
 			var typ types.Type
 			if len(expr.Lhs) == len(expr.Rhs) {
-				typ, _ = gogen.DerefType(ctx.cb.Get(-1 - i).Type)
+				typ, _ = gogen.DerefType(ctx.cb.Get(-len(expr.Lhs)).Type)
 			}
 			compileCompositeLit(ctx, e, typ, false)
 		default:
